@@ -96,6 +96,7 @@ def run(ctx):
     rule_qany(ctx, F)
     rule_badsigs(ctx, F)
     rule_loopcount(ctx, F)
+    rule_wildsig(ctx, F)
 
 
 def rule_sig(ctx, F):
@@ -1208,3 +1209,36 @@ def rule_loopcount(ctx, F):
            "do_cname_dname can start another pass over the answer groups without having incremented the counter that is compared "
            "with max_cname_dname: a response with a cycle of such links (DNAMEs pointing at each other) never lets validate_msg "
            "return", b.where(bad[0]) if bad else b.where())
+
+
+def rule_wildsig(ctx, F):
+    """Whether an RRset was expanded from a wildcard -- and from which closest encloser -- is read off the Labels field of
+    the RRSIG *that verified* (RFC 4035 5.3.4): in Group::validate_with_node, wildcard_closest_encloser is applied to the
+    record that was handed to check_sig_cached, behind that check.  Taken from some other RRSIG of the set (the first
+    one, unverified), a stray RRSIG with a full label count hides that the answer is a wildcard expansion."""
+    R = "C14.wildsig"
+    ctx.floor(R, 1)
+    bs = [b for p, b in F.bodies.items() if re.search(r"group::Group::validate_with_node(::<.*>)?::\{closure#0\}$", p)]
+    if not ctx.anchor(R, "Group::validate_with_node", len(bs) == 1):
+        return
+    b = bs[0]
+    checks = [(bb, deep_strip(b.term_of_operand(t["args"][1]))) for bb, t in b.calls() if re.search(r"Group::check_sig_cached$", t["fn"] or "")]
+    wc = [(bb, t) for bb, t in b.calls() if re.search(r"::wildcard_closest_encloser(::<.*>)?$", t["fn"] or "")]
+    in_closures = [(bi, cb) for bi, cb, ops in closures_created_in(F, b) if cb.calls_matching(r"::wildcard_closest_encloser(::<.*>)?$")]
+    if not ctx.anchor(R, "check_sig_cached and wildcard_closest_encloser in validate_with_node", bool(checks) and bool(wc or in_closures), b.where()):
+        return
+    for bi, cb in in_closures:
+        ctx.ob(R, b, "the wildcard is read from the RRSIG that verified", False,
+               "validate_with_node evaluates wildcard_closest_encloser inside a closure (%s) over some RRSIG of the set, not on the "
+               "record that check_sig_cached has just verified: an unverifiable RRSIG with a full label count in front hides a "
+               "wildcard expansion" % cb.path.split("::")[-1], b.where(bi))
+    for bb, t in wc:
+        recv = deep_strip(b.term_of_operand(t["args"][0]))
+        ok = False
+        for cb, sig_t in checks:
+            if b.dominates(cb, bb) and any(canon_nobb(s_) == canon_nobb(sig_t) for s_ in walk(recv) if isinstance(s_, tuple)):
+                ok = True
+        ctx.ob(R, b, "the wildcard is read from the RRSIG that verified", ok,
+               "validate_with_node takes the closest encloser of an expanded wildcard from %s, which is not the record just verified "
+               "by check_sig_cached (or is evaluated before that check): with an unverifiable RRSIG carrying a full label count in "
+               "front, a replayed `*.zone` answer for an existing name is secure without any proof" % show(recv)[:90], b.where(bb))
